@@ -40,7 +40,7 @@ Definition un_shape (n : wv) (ks : wv) : option call_shape :=
 (* (0 m npos (kw ...))  -> redu_bind          : (0 binding) | (1)
    (1 m npos (kw ...))  -> py_bind            : (0 binding) | (1)
    (2 m npos (kw ...))  -> guard_ok (guard_of m)
-   (3)                  -> table summary: ((name translated device-params guarded) ...) + the RGBLed.on flag *)
+   (3)                  -> table summary: ((name translated device-params guarded) ...) *)
 Definition run (v : wv) : wv :=
   match v with
   | WL [WI 0; m; n; ks] =>
@@ -63,7 +63,6 @@ Definition run (v : wv) : wv :=
   | WL [WI 3] =>
       WL [WL (map (fun m => WL [wtext m; wbool true; WL (map wtext (device_params m)); wbool (negb (unguarded m))])
                   translated_methods
-              ++ map (fun m => WL [wtext m; wbool false; WL []; wbool false]) host_only_methods);
-          wbool rgb_on_keyword_fix_landed]
+              ++ map (fun m => WL [wtext m; wbool false; WL []; wbool false]) host_only_methods)]
   | _ => wbad
   end.
